@@ -64,6 +64,17 @@ Theorem C10_problem_meta_roundtrip : forall name description params costs pnames
             forall st, read_meta (with_individuals t st) = read_meta t.
 Proof. exact problem_meta_roundtrip. Qed.
 
+(* a store re-opened in write mode on an existing file (second writing session): synchronising a reloaded
+   individual again keeps every field the property names; state becomes null, parents / children are lost *)
+Theorem C10_reload_resync : forall x k,
+  from_dict (to_dict (loaded_of_row k (to_dict x))) =
+  Some {| v_id := v_id (view_of x); v_vector := v_vector (view_of x); v_costs := v_costs (view_of x);
+          v_state := JNull; v_costs_signed := v_costs_signed (view_of x);
+          v_population_id := v_population_id (view_of x); v_algorithm_id := v_algorithm_id (view_of x);
+          v_custom := v_custom (view_of x); v_features := v_features (view_of x) |} /\
+  i_parents (loaded_of_row k (to_dict x)) = [] /\ i_children (loaded_of_row k (to_dict x)) = [].
+Proof. exact reload_resync. Qed.
+
 (* the boolean tree equality used by the correspondence decides equality *)
 Theorem C10_jv_eqb_eq : forall a c, jv_eqb a c = true <-> a = c.
 Proof. exact jv_eqb_eq. Qed.
@@ -75,6 +86,7 @@ Print Assumptions C10_row_count.
 Print Assumptions C10_view_returns_last_sync.
 Print Assumptions C10_run_store_complete.
 Print Assumptions C10_problem_meta_roundtrip.
+Print Assumptions C10_reload_resync.
 Print Assumptions C10_jv_eqb_eq.
 
 (* non-vacuity: a concrete history with a repeated id, a parent reference and an individual
